@@ -185,6 +185,25 @@ def address_filter(r: Report, rid: str, fn: FuncInfo, atoms_want: set[str], m: M
                     f"the address filter with atoms {sorted(atoms_want)} was not found: frames of other address pairs are not skipped", fn.loc)
 
 
+def requeue_on_cancellation(r: Report, rid: str, fn: FuncInfo, queue_text: str) -> None:
+    """The wait for the next frame can be cancelled (the caller's timeout: asyncio.wait_for cancels the awaited read); frames that were set aside before must
+    survive that exit as well: the receive loop is enclosed in a try whose finally (or BaseException / CancelledError handler) puts them back into the queue."""
+    loops = [n for n in fn.node.body if isinstance(n, ast.While)] + [n for t in fn.node.body if isinstance(t, ast.Try) for n in t.body if isinstance(n, ast.While)]
+    recv = [l for l in loops if any(isinstance(x, ast.Await) for x in ast.walk(l)) and any(isinstance(x, ast.Call) and isinstance(x.func, ast.Attribute) and x.func.attr == "append" for x in ast.walk(l))]
+    if len(recv) != 1:
+        raise AnalysisError(f"{fn.qualname}: receive loop that sets frames aside not found")
+
+    def puts_back(stmts: list[ast.stmt]) -> bool:
+        return any(queue_text in ast.unparse(s) and (".put(" in ast.unparse(s) or ".put_nowait(" in ast.unparse(s)) for s in stmts)
+    protected = False
+    for t in ast.walk(fn.node):
+        if isinstance(t, ast.Try) and any(recv[0] is x for b in t.body for x in ast.walk(b)):
+            if puts_back(t.finalbody) or any((h.type is None or any(k in ast.unparse(h.type) for k in ("BaseException", "CancelledError"))) and puts_back(h.body) for h in t.handlers):
+                protected = True
+    r.check(protected, rid, f"{fn.qualname}#requeue-on-cancellation", "frames set aside while waiting are put back only on the normal exits of the receive loop: when the caller's "
+            "timeout cancels the wait (the connection stays open) they are dropped with the local list and no later read delivers them", loc=fn.loc)
+
+
 def requeue_before_exit(r: Report, rid: str, fn: FuncInfo, queue_text: str, extra_exits: tuple[str, ...] = ()) -> None:
     """Every normal return (and the listed raises) passes the loop that puts skipped frames back into the queue."""
     g = CFG(fn.node)
